@@ -330,6 +330,16 @@ Section Coll.
     | None => vs <- to_vec h ;;
               Ret (fold_left (fun acc v => acc + lenN (eenc ek v)) vs 0 + bytes_per_offset * iface_len h)
     end.
+  (* the static half of `Encode`: is_ssz_fixed_len() / ssz_fixed_len() of the collection TYPE (what an
+     enclosing container uses to lay the collection out): a List is always variable-size (the default
+     ssz_fixed_len() = BYTES_PER_LENGTH_OFFSET); a Vector is fixed-size iff its element type is, and then
+     occupies N elements' worth of bytes *)
+  Definition coll_is_ssz_fixed (is_list : bool) : bool :=
+    if is_list then false else match efixed ek with Some _ => true | None => false end.
+  Definition coll_ssz_fixed_len (is_list : bool) (capN : N) : N :=
+    if coll_is_ssz_fixed is_list
+    then match efixed ek with Some s => s * capN | None => bytes_per_offset end
+    else bytes_per_offset.
   (* SszEncoder::container(buf, n*4); append each; finalize — modelled: offsets then payloads *)
   Fixpoint var_offsets (vs : list T) (off : N) : list N :=
     match vs with [] => [] | v :: r => num_le 4 off ++ var_offsets r (off + lenN (eenc ek v)) end.
